@@ -463,10 +463,16 @@ def mon_stop(run):
         if run.result == ["interrupted"]:
             out.append((sig(run, kind="interrupted-without-stop-condition"), {}))
     # a worker that ended with a stop / fail-fast request, once the controller has handled its exit
-    stoppers = {n for _k, n, ev in run.wevs if ev[0] == "workerfinished" and ev[1] == 1}
+    stoppers = {n for _k, n, ev in run.wevs if ev[0] == "workerfinished" and ev[1] in (1, 2)}     # stop request / keyboard interrupt
     handled = {ev[1] for ev in run.ctl_events.values() if ev and ev[0] == "workerfinished"}
     if (stoppers & handled) and run.result == ["finished"]:
         out.append((sig(run, kind="worker-stop-request-ignored"), {"workers": sorted(stoppers & handled)}))
+    # the very iteration that decides to stop must not hand out tests either (they would be queued AHEAD of the shutdown signal)
+    if stop_step is not None:
+        same = [o for k, o in run.outs if k == stop_step and o[0] == "send" and o[2][0] in ("run", "runall", "steal")]
+        if same:
+            out.append((sig(run, kind="dispatch-in-the-iteration-that-decided-to-stop"), {"stop_step": stop_step, "cmds": same[:3],
+                                                                                            "event": run.ctl_events.get(stop_step)}))
     # a worker whose own session asked to stop (a test set session.shouldstop) ends REGULARLY: its request is a stop
     # reason, it is not a dead worker (no error-down, no crash report for a test it never ran, no replacement)
     asked = {n for n, ran in run.ran.items() if any(i in run.cfg["stops"] for i, _ in ran)}
